@@ -148,6 +148,8 @@ func (v V) Go() any {
 		return MyStr(v.S)
 	case "bytes":
 		return []byte(v.S)
+	case "bytestring":
+		return cbor.ByteString(v.S)
 	case "time":
 		return time.Unix(parseI(v.S), 0).UTC()
 	case "bigint":
@@ -364,6 +366,29 @@ func Describe(x any) V {
 		}
 		sort.Slice(m, func(i, j int) bool { return m[i].K.T+m[i].K.S < m[j].K.T+m[j].K.S })
 		return V{T: "map[any]any", M: m}
+	}
+	switch t := x.(type) {
+	case time.Time:
+		return V{T: "time", S: strconv.FormatInt(t.Unix(), 10)}
+	case big.Int:
+		return V{T: "bigint", S: t.String()}
+	case *big.Int:
+		if t != nil {
+			return V{T: "bigint", S: t.String()}
+		}
+	case cbor.Tag:
+		return V{T: "tag", S: strconv.FormatUint(t.Number, 10), L: []V{Describe(t.Content)}}
+	case cbor.SimpleValue:
+		return V{T: "simple", S: strconv.FormatUint(uint64(t), 10)}
+	case cbor.ByteString:
+		return V{T: "bytestring", S: string(t)}
+	}
+	if rv := reflect.ValueOf(x); rv.Kind() == reflect.Array && rv.Type().Elem().Kind() == reflect.Interface {
+		l := make([]V, rv.Len())
+		for i := range l {
+			l[i] = Describe(rv.Index(i).Interface())
+		}
+		return V{T: "array", L: l}
 	}
 	return V{T: "?", S: fmt.Sprintf("%#v", x)}
 }
